@@ -169,6 +169,11 @@ class NodeValidator():
                 # Recurse into grandchildren
                 if isinstance(val, dict):
                     for child_name, child_val in val.items():
+                        if not isinstance(child_val, dict):
+                            problems.append(
+                                f'{path}.{name}.{child_name} is {child_val!r} but should be an Object'
+                            )
+                            continue
                         self.validate_node(
                             child_val,
                             f"{path}.{name}.{child_name}",
